@@ -234,8 +234,8 @@ def purchase (s : RegState) (id number : Nat) (owner : AddrTok) : M (RegState ×
   | some m =>
     if m.owner.decode ≠ some ownerAddr then throw (s.mErr 6)
     let (limit, _) := s.limitOf id
-    let after := addU64 limit number          -- unchecked uint64 addition
-    if after > s.params.maxLimit then throw (s.mErr 8)
+    let after := addU64 limit number          -- uint64 addition; a wrapped sum is rejected
+    if after > s.params.maxLimit ∨ after < limit then throw (s.mErr 8)
     let s' := { s with limits := AL.insert s.limits id after }
     pure (s', s'.maxPurchasable id)
 
